@@ -62,10 +62,10 @@ func c09(run *ev.Run) {
 	switch which {
 	case "vesting":
 		sc = vestingScenario(run)
-		sc.dq, sc.dt = 3, 5
+		sc.dq, sc.dt = 3, 4
 	case "faucet":
 		sc = faucetScenario(run, false)
-		sc.dq, sc.dt = 3, 5
+		sc.dq, sc.dt = 3, 4
 	case "bridge":
 		sc = bridgeScenario(run, 0.7)
 		sc.acts = append(pickMints(sc.acts), bridgeLedgerActions(sc)...)
